@@ -75,6 +75,8 @@ impl Monitor for C16 {
                 st.class("pool-with-liquidity-tokens-outstanding");
             }
         }
+        st.class_n("deposit-batches-settled", ob.trace.deposits.len() as u64);
+        st.class_n("withdrawal-batches-settled", ob.trace.withdrawals.len() as u64);
         for (k, _) in ob.trace.deposits.iter() {
             *self.deposits.entry(*k).or_insert(0) += 1;
         }
@@ -100,6 +102,7 @@ pub fn profile() -> Profile {
     p.p_odd_spelling = 30;
     p.max_txs = 8;
     p.max_steps = 24;
+    p.seed_funds = true;
     p
 }
 
